@@ -437,7 +437,7 @@ abbrev RQ0W (g : Cfg) (W : WList) (Q : Transport → Prop) (S0 : Conn → Prop) 
 /-- **The handler has returned**: `close` of a request that has read its input to the end. -/
 theorem bdoneQW {g : Cfg} {W : WList} {Q : Transport → Prop} {S0 : Conn → Prop} (hQ : MonoQ Q) {c : Conn} {r0 r : AReq} {h h' : HState} {e' : Run.Env}
     {O1 : Bytes} (hph : c.phase = .handler r0 h)
-    (heq : handlerPoll (handlerFuel c.env r0) r0 h c.env = (r, h', e', .done (.ok g.st)))
+    (heq : handlerPoll ((handlerFuel c.env r0 + scriptOf c)) r0 h c.env = (r, h', e', .done (.ok g.st)))
     (hws : h'.writers = [none, none]) (hm : e'.mutex = none)
     (hlog : e'.tr.wlog = (g.L1 ++ O1) ++ outOf g.p.id W)
     (hfin : REnd g.N r e'.tr.input) (hO : O1 ++ r.sp.output = g.Ob) (hseen : Q e'.tr)
@@ -474,7 +474,7 @@ theorem bdoneQW {g : Cfg} {W : WList} {Q : Transport → Prop} {S0 : Conn → Pr
 theorem bwrite_outQW {g : Cfg} {W : WList} {Q : Transport → Prop} {S0 : Conn → Prop} (hQ : MonoQ Q) {c : Conn} {r0 r : AReq} {h : HState} {e0 : Run.Env}
     {O1 : Bytes} (hph : c.phase = .handler r0 h)
     {out : AReq × HState × Run.Env × HRes}
-    (heq : handlerPoll (handlerFuel c.env r0) r0 h c.env = out)
+    (heq : handlerPoll ((handlerFuel c.env r0 + scriptOf c)) r0 h c.env = out)
     (hw : WOut2 g.p.id W g.st (g.L1 ++ O1) r e0 out)
     (hts0 : TStep c.env.tr e0.tr) (hsg0 : e0.segs = c.env.segs)
     (hfin : REnd g.N r e0.tr.input) (hO : O1 ++ r.sp.output = g.Ob) (hseen : Q e0.tr)
@@ -512,7 +512,7 @@ theorem hwq_pollW {g : Cfg} {W : WList} {Q : Transport → Prop} {S0 : Conn → 
     (hfu : wcostAll W + 4 ≤ 1000) {c : Conn} (h : HWqW g W Q c) : RQ0W g W Q S0 3 c := by
   obtain ⟨r, h, O1, hph, hw, hfin, hO, hseen, hb, hstop, hev, hsc⟩ := h
   have hfuel := handlerFuel_ge c.env r
-  have hout := write_phase2 (r := r) hw hb (fuel := handlerFuel c.env r) (by omega)
+  have hout := write_phase2 (r := r) hw hb (fuel := (handlerFuel c.env r + scriptOf c)) (by omega)
   exact bwrite_outQW hQ (r := r) (e0 := c.env) hph rfl hout (.refl _) rfl hfin hO hseen hb hstop hev hsc
 
 theorem tq_pollW {g : Cfg} {W : WList} {Q : Transport → Prop} {S0 : Conn → Prop} (hQ : MonoQ Q) {c : Conn} (h : TQW g W Q c) :
@@ -587,7 +587,7 @@ abbrev R1W (g : Cfg) (W : WList) (k : Nat) (N : Nat) (c : Conn) : Prop := RQ0W g
 /-- the rest of a poll from the handler's `readAll` on -/
 theorem ra1_pollW {g : Cfg} {W : WList} {n k : Nat} (ok : BR2OKW g W n k) {c : Conn} {r0 r : AReq} {H0 : HState} {sub : HSub}
     {e : Run.Env} {f : Nat} {dO : Bytes} {shown : List Bytes} (hph : c.phase = .handler r0 H0)
-    (heq : handlerPoll (handlerFuel c.env r0) r0 H0 c.env =
+    (heq : handlerPoll ((handlerFuel c.env r0 + scriptOf c)) r0 H0 c.env =
       handlerPoll f r { ops := .readAll :: otail W g.st, sub := sub, propagate := true } e)
     (hs : BSt g.K g.L1 [] r e.mutex e.tr (taken k shown ++ accOf sub) dO) (hsl : SlEv shown e.tr)
     (hts : TStep c.env.tr e.tr) (hsg : e.segs = c.env.segs)
@@ -643,10 +643,10 @@ theorem hb1_pollW {g : Cfg} {W : WList} {n k : Nat} (ok : BR2OKW g W n k) {c : C
   obtain ⟨r, n', handed, dO, shown, hph, hs, hpos, hsh, hevs, hfu, hb, hstop, hev, hsc⟩ := h
   have hK := ok.kok
   have hcapr : r.sp.cap = g.cap := by obtain ⟨⟨G, hi⟩, _⟩ := hs; exact hi.capK
-  have hfuel : 1000 + 4 * c.env.tr.input.length + 4 * g.cap ≤ handlerFuel c.env r := by
+  have hfuel : 1000 + 4 * c.env.tr.input.length + 4 * g.cap ≤ (handlerFuel c.env r + scriptOf c) := by
     unfold handlerFuel; rw [hcapr]; omega
   rcases rounds_runG hK (L := g.L1) (P := []) ok.rwf k (.readAll :: otail W g.st) [] true n'
-      (handlerFuel c.env r) r c.env handed dO shown (by omega) hb hs hpos hsh hevs with
+      ((handlerFuel c.env r + scriptOf c)) r c.env handed dO shown (by omega) hb hs hpos hsh hevs with
     ⟨n2, r', e', handed', dO', shown', a0, a1, a2, a3, a4, a5, a6, a7, a8, a9, _⟩ |
     ⟨r', e', handed', dO', shown', f', b1, b2, b3, b4, b5, b6, b7, b8, _⟩
   · have hstep := C07.handler_step c r _ hph
@@ -670,7 +670,7 @@ theorem hb1_pollW {g : Cfg} {W : WList} {n k : Nat} (ok : BR2OKW g W n k) {c : C
 theorem ha1_pollW {g : Cfg} {W : WList} {n k : Nat} (ok : BR2OKW g W n k) {c : Conn} (h : HA1W g W k c) : R1W g W k 3 c := by
   obtain ⟨r, acc, dO, shown, hph, hs, hsl, hb, hstop, hev, hsc⟩ := h
   have hcapr : r.sp.cap = g.cap := by obtain ⟨⟨G, hi⟩, _⟩ := hs; exact hi.capK
-  have hfuel : 1000 + 4 * c.env.tr.input.length + 4 * g.cap ≤ handlerFuel c.env r := by
+  have hfuel : 1000 + 4 * c.env.tr.input.length + 4 * g.cap ≤ (handlerFuel c.env r + scriptOf c) := by
     unfold handlerFuel; rw [hcapr]; omega
   have hfu := ok.hfu
   refine ra1_pollW ok (sub := .readAllAcc acc) (shown := shown) hph rfl hs hsl (.refl _) rfl ?_ hb hstop hev hsc
